@@ -27,6 +27,9 @@ def shard_main(pid, specfile, outfile):
     env = core.call_environment()
     ctx.count('shards_run_with_TZ=%s' % (env['TZ'] or 'unset'))
     ctx.count('shards_run_in_%s' % ('the harness directory' if env['cwd_is_verif_root'] else 'a scratch working directory of their own'))
+    ctx.count('shards_run_with_PYTHONHASHSEED=%s' % env['PYTHONHASHSEED'])
+    if os.environ.get('VERIF_DECIMAL_PREC'):
+        ctx.count('shards_run_with_decimal_context_precision=%s' % os.environ['VERIF_DECIMAL_PREC'])
     try:
         mod = prop_module(pid)
         mod.run_shard(spec, ctx)
@@ -59,6 +62,11 @@ def run_one_shard(pid, spec, tmpdir, idx, timeout):
         env['TZ'] = shenv['TZ']
     else:
         env.pop('TZ', None)
+    env['PYTHONHASHSEED'] = shenv['PYTHONHASHSEED']
+    if shenv['VERIF_DECIMAL_PREC']:
+        env['VERIF_DECIMAL_PREC'] = shenv['VERIF_DECIMAL_PREC']
+    else:
+        env.pop('VERIF_DECIMAL_PREC', None)
     cwd = core.VERIF_ROOT
     if shenv['own_cwd']:
         cwd = os.path.join(tmpdir, 'cwd%d' % idx)
@@ -242,7 +250,10 @@ def replay_main(pid, mod, path):
     rec = json.load(open(path))
     ctx = core.Ctx(pid, rec.get('tier', 'quick'), rec.get('seed', 0), 'replay')
     os.environ.setdefault(core.GUARD, '1')
-    core.apply_environment(rec.get('env'))
+    if core.apply_environment(rec.get('env')) and not os.environ.get('VERIF_REPLAY_REEXEC'):
+        # the witness was observed under another hash seed: start the interpreter again with it
+        env = dict(os.environ, PYTHONHASHSEED=rec['env']['PYTHONHASHSEED'], VERIF_REPLAY_REEXEC='1')
+        os.execve(sys.executable, [sys.executable, '-X', 'faulthandler', '-m', 'vmon.cli', pid, '--replay', path], env)
     try:
         mod.replay(rec['case'], ctx)
     except core.Inconclusive as e:
